@@ -198,6 +198,15 @@ void ExpressionBuilder::type_void()
     typeFragments.push(type);
 }
 
+/** True if the user data of \a s is a variable_t (and not a function, location, template, instance or process). */
+static bool hasVariableData(const symbol_t& s)
+{
+    type_t type = s.get_type().strip_array();
+    return s.get_data() != nullptr &&
+           (type.is(INT) || type.is(STRING) || type.is(DOUBLE) || type.is(BOOL) || type.is(CLOCK) || type.is(CHANNEL) ||
+            type.is(SCALAR) || type.get_kind() == RECORD);
+}
+
 static void collectDependencies(std::set<symbol_t>& dependencies, expression_t expr)
 {
     std::set<symbol_t> symbols;
@@ -207,8 +216,8 @@ static void collectDependencies(std::set<symbol_t>& dependencies, expression_t e
         symbols.erase(s);
         if (dependencies.find(s) == dependencies.end()) {
             dependencies.insert(s);
-            if (auto* data = s.get_data(); data) {
-                variable_t* v = static_cast<variable_t*>(data);
+            if (hasVariableData(s)) {
+                variable_t* v = static_cast<variable_t*>(s.get_data());
                 v->init.collect_possible_reads(symbols);
             }
         }
